@@ -12,6 +12,7 @@
 import AdaptixProofs.Lemmas.LayoutOverlay
 import AdaptixProofs.Lemmas.LayoutLoadPaths
 import AdaptixProofs.Lemmas.LayoutDump
+import AdaptixProofs.Lemmas.LayoutRoundTrip
 
 namespace Adaptix.Layout.C03
 
@@ -445,7 +446,68 @@ theorem list_gaps_are_none (cfg : DumpCfg) (obj vals : List (String × Val)) (m 
       | cons c t ih => simp [dumpList, ih]
     simp [dumpCrown, Val.len, this]
 
-/-! ## 5. Non-vacuity: concrete programs evaluated by the kernel -/
+/-! ## 5. Loader and dumper agree on the paths -/
+
+/-- **Refinement of the generated loader**: in every debug mode, strict or not, the generated code reaches
+    the constructor call *iff* the datum has the shape the crown asks for (and the extra-target loaders
+    accept the collected extra); arguments and extra are then the denotational reading of the crown. -/
+theorem loader_refines_reading (cfg : LoadCfg) (crown : InpCrown) (data : Val) (args : List (String × Val))
+    (extra : Option Val) :
+    loadModel cfg crown data = .ok args extra ↔
+      (specOk cfg crown data = true ∧
+       targetsOk cfg crown.policy (specExtra crown data) cfg.move.targetIds = true ∧
+       args = specArgs cfg crown data ++ specTargets cfg crown.policy (specExtra crown data) cfg.move.targetIds ∧
+       extra = extraOut cfg crown data) :=
+  loadModel_ok_iff cfg crown data args extra
+
+/-- **Crown round trip (dump then load through the same layout)**: for identity field codecs, no
+    omit_default sieve, no extra data and an object holding every field of the crown, the generated
+    dumper succeeds and the generated loader — any debug mode, strict or lax, any extra policy
+    (also ExtraForbid: nothing unknown is ever written) — reads back exactly the field values, in
+    crown order.  Both sides use the same paths: the leaves of the one crown. -/
+theorem dump_load_roundtrip (cfgL : LoadCfg) (cfgD : DumpCfg) (crown : OutCrown) (pol : Policy)
+    (obj : List (String × Val))
+    (hload : ∀ id v, cfgL.loader id v = .ok v) (hdump : ∀ id v, cfgD.dumper id v = .ok v)
+    (hmL : cfgL.move = .none) (hmD : cfgD.move = .none)
+    (hwf : crown.wf cfgD = true) (hns : crown.noSieves = true)
+    (hroot : crown.isField = false ∧ ∀ ph, crown ≠ .none ph)
+    (hfields : ∀ id ∈ crown.fieldIds, ∃ f ∈ cfgD.fields, f.id = id)
+    (hobj : ∀ id ∈ crown.fieldIds, ∃ v, Val.lookup id obj = some v) :
+    ∃ out, dumpModel cfgD crown obj = .ok out ∧
+      loadModel cfgL (crown.toInpCrown pol) out =
+        .ok (crown.fieldIds.map fun id => (id, (Val.lookup id obj).getD .none)) none := by
+  have hdirect : ∀ f ∈ cfgD.fields.filter (fun f => crown.fieldIds.contains f.id),
+      (f.required = true → ∃ raw, Val.lookup f.id obj = some raw) ∧
+      (∀ raw, Val.lookup f.id obj = some raw → ∃ v, cfgD.dumper f.id raw = .ok v) := by
+    intro f hf
+    have hmem : f.id ∈ crown.fieldIds := by simpa using (List.mem_filter.mp hf).2
+    exact ⟨fun _ => hobj _ hmem, fun raw _ => ⟨raw, hdump _ _⟩⟩
+  refine ⟨_, dumpModel_complete_noextra cfgD crown obj hmD hdirect, ?_⟩
+  have hlook : ∀ id ∈ crown.fieldIds,
+      Val.lookup id (specVals cfgD obj (cfgD.fields.filter fun f => crown.fieldIds.contains f.id)) =
+        Val.lookup id obj := by
+    intro id hid
+    obtain ⟨f, hf, rfl⟩ := hfields id hid
+    obtain ⟨v, hv⟩ := hobj _ hid
+    have hany : (cfgD.fields.filter fun g => crown.fieldIds.contains g.id).any (fun g => g.id == f.id) = true := by
+      simp only [List.any_eq_true, List.mem_filter, beq_iff_eq]
+      exact ⟨f, ⟨hf, by simpa using hid⟩, rfl⟩
+    rw [lookup_specVals, hany]
+    simp [dumpedOf, hv, hdump]
+  have hall : AllVals (specVals cfgD obj (cfgD.fields.filter fun f => crown.fieldIds.contains f.id)) crown.fieldIds := by
+    intro id hid
+    obtain ⟨v, hv⟩ := hobj id hid
+    exact ⟨v, by rw [hlook id hid, hv]⟩
+  obtain ⟨hok, hargs⟩ := roundtrip_crown cfgL cfgD obj _ pol hload crown hwf hns hall hroot
+  rw [loadModel_ok_iff]
+  refine ⟨hok, by simp [hmL, InpExtraMove.targetIds, targetsOk], ?_, by simp [extraOut, hmL]⟩
+  rw [hargs]
+  simp only [hmL, InpExtraMove.targetIds, specTargets, List.append_nil, fieldVals]
+  apply List.map_congr_left
+  intro id hid
+  rw [hlook id hid]
+
+/-! ## 6. Non-vacuity: concrete programs evaluated by the kernel -/
 
 private def exCfg (mode : DebugTrail) : LoadCfg :=
   { mode, strict := true, move := .none,
